@@ -13,7 +13,7 @@ TRUST = ('Static rule conformance decided from /repo source on every run. '
 P = {
  'C01': dict(
   tech='effect analysis (shared-mutable-state / who-writes-what) over the parse path, incl. ply lexer hand-off',
-  text='Sufficient structural condition: no mutable location is shared between two parses of one engine (fresh ply lexer per call, token/grammar actions store only into per-call objects, error hook raises so ply never enters recovery). If the rules pass, the property holds for all texts, histories and schedules given ply\'s documented contract.',
+  text='Sufficient structural condition: no mutable location is shared between two parses of one engine (fresh ply lexer per call or one lock shared by every engine built around that lexer, token/grammar actions store only into per-call objects and never read ply's per-parse parser state, error hook raises so ply never enters recovery). If the rules pass, the property holds for all texts, histories and schedules given ply\'s documented contract.',
   note=TRUST + 'ply 3.11 LRParser.parse keeps its stacks in locals; Lexer.clone() gives an independent cursor.',
   ref='6/C01'),
  'C02': dict(
@@ -24,7 +24,7 @@ P = {
   ref='6/C02'),
  'C03': dict(
   tech='exception-escape analysis of lexer/parser actions + guard-regex vs partial-conversion domain',
-  text='Decides that no non-YAQL exception can escape the token/grammar actions: every partial conversion (int/float/codecs.decode/chr/...) is either applied to text whose guard regex is included in the conversion\'s domain or sits in a try whose handler raises a YaqlParsingException subclass; error hooks raise YAQL exceptions on every path; reported positions are unmodified token positions.',
+  text='Decides that no non-YAQL exception can escape the token/grammar actions: every partial conversion (int/float/codecs.decode/chr/...) is either applied to text whose guard regex is included in the conversion\'s domain or sits in a try whose handler raises a YaqlParsingException subclass; error hooks raise YAQL exceptions on every path; reported positions are unmodified token positions; the text handed to ply is the caller's text; no token regex is exponentially ambiguous; no function on the parse path is recursive.',
   note=TRUST + 'ply\'s token loop and LR driver terminate and never raise anything themselves once t_error/p_error raise.',
   ref='6/C03'),
  'C04': dict(
@@ -39,17 +39,17 @@ P = {
   ref='7 and Appendix E'),
  'C06': dict(
   tech='order-taint analysis of loops over unordered overload sets on the resolution path',
-  text='Sufficient condition: every loop on the resolution path that iterates an unordered collection carries state only through order-insensitive forms; order-tainted lists are only used order-insensitively. If it passes, resolution cannot depend on enumeration order for any overload family.',
+  text='Sufficient condition: every loop on the resolution path that iterates an unordered collection carries state only through order-insensitive forms; order-tainted lists are only used order-insensitively; the all-equal idiom on lazy sets is symmetric; registration state is updated by commutative operations only. If it passes, resolution cannot depend on enumeration order for any overload family.',
   note=TRUST + 'SmartType.check / is_specialization_of are pure functions of their operands.',
   ref='6/C06'),
  'C07': dict(
   tech='who-may-call / must-pass-through analysis of reflection sinks over all evaluation-time code',
-  text='Decides which code may touch host-object members: reflective sinks (dynamic getattr/setattr, vars, format with data templates, subscripts on host objects, calls of data) are enumerated over the whole library and must be in the owner table, dominated by name validation on the raw name, and capability-typed. Matching semantics of whitelist entries are values and not decided.',
+  text='Decides which code may touch host-object members: reflective sinks (dynamic getattr/setattr, vars, format with data templates, subscripts on host objects, calls of data) are enumerated over the whole library and must be in the owner table, dominated by name validation on the raw name, and capability-typed. The decision table of _validate_name and of the Yaqlized checker is decided by exhaustive abstract evaluation over a bounded abstraction (names x lists of <= 2 opaque entries x every match valuation). Matching semantics of whitelist entries are values and not decided.',
   note=TRUST + 'host-supplied callables (yaqlized methods, predicates) are host code.',
   ref='6/C07'),
  'C08': dict(
   tech='declared-type vs body-consumption analysis of every registered overload; must-pass-through for quota/limit calls',
-  text='Decides that every parameter whose elements a library function consumes is declared with a limiting smart type (or consumed through limit_iterable), that the finaliser iterates only through the limiter, that runner.call and SmartType.convert apply the quota on every path, and that repetition operators check before allocating. The arithmetic of the bounds is not decided.',
+  text='Decides that every parameter whose elements a library function consumes is declared with a limiting smart type (or consumed through limit_iterable), that the finaliser iterates only through the limiter, that runner.call and SmartType.convert apply the quota on every path, that repetition operators check before allocating, and that limit_memory_usage measures every sample. The arithmetic of the bounds is not decided.',
   note=TRUST + 'limit_iterable / limit_memory_usage bodies are checked structurally (raise inside the loop / before return), their numeric comparisons are not.',
   ref='6/C08'),
  'C09': dict(
@@ -59,17 +59,17 @@ P = {
   ref='6/C09'),
  'C10': dict(
   tech='abstract interpretation of convert_output_data / convert_input_data over a finite container-shape domain x option flags',
-  text='Type-level behaviour of the finaliser on every container shape (depth 2, thorough 3) under the 4 option combinations: no unhashable-element error, output plain for those options; every statement result passes through the finaliser. Equality of values is not decided.',
+  text='Type-level behaviour of the finaliser on every container shape (depth 2, thorough 3) under the 4 option combinations: no unhashable-element error, output plain for those options; every statement result passes through the finaliser; the converters keep no id()-keyed cache. Equality of values is not decided.',
   note=TRUST + 'ABC memberships of builtin container kinds are looked up from the interpreter.',
   ref='6/C10'),
  'C11': dict(
   tech='evaluation-site enumeration + control-dependence / at-most-once path analysis of lazy operands',
-  text='Decides: argument evaluation sites sit in one sweep outside candidate loops and are unreachable from matching code; the lazy argument set is keyed by index / call keyword like the sweep; the functions named in the statement declare their operands lazy and call the unselected operand only under the selecting test; per-element callables are not applied from (anything reachable from) comparison methods. Full trace equality with an order model is not decided.',
+  text='Decides: argument evaluation sites sit in one sweep outside candidate loops and are unreachable from matching code; the lazy argument set is keyed by index / call keyword like the sweep; the functions named in the statement declare their operands lazy and call the unselected operand only under the selecting test; per-element callables are not applied from (anything reachable from) comparison methods; positional arguments are swept before keyword arguments; the callable built for a Lambda evaluates on every invocation. Full trace equality with an order model is not decided.',
   note=TRUST + 'necessary clauses.',
   ref='6/C11'),
  'C12': dict(
   tech='declaration-level checks: keyword-name language, declared (AST) vs effective (reflected) registry diff, kind predicate def-use, bounded LALR-table simulation of argument-list shapes with abstractly interpreted actions',
-  text='Necessary conditions at declaration level: every visible parameter has a writable, unique keyword name; the registry recovered from decorators agrees with the effective registry (name, kind, no_kwargs, parameter order, aliases, laziness); runner.call tests is_function / is_method on the right branches; on the generated LALR tables every bounded pattern of value/empty positional slots is accepted and yields one entry per slot; the lazy set is keyed like the sweep. Result equality across spellings is not decided.',
+  text='Necessary conditions at declaration level: every visible parameter has a writable, unique keyword name; the registry recovered from decorators agrees with the effective registry (name, kind, no_kwargs, parameter order, aliases, laziness); runner.call tests is_function / is_method on the right branches; on the generated LALR tables every bounded pattern of value/empty positional slots is accepted and yields one entry per slot; the lazy set is keyed like the sweep; hidden parameters of **kwargs functions are unwritable names; clone() copies parameter definitions; call() forwards kwargs keys verbatim. Result equality across spellings is not decided.',
   note=TRUST + 'reflection executes import-time and registration code only, never runner.call.',
   ref='6/C12'),
  'C13': dict(
@@ -84,32 +84,32 @@ P = {
   ref='6/C14'),
  'C15': dict(
   tech='type-level overload kind-matrix + body-shape checks of operator wrappers',
-  text='Type-level: which scalar kinds each operator overload admits (bool never as a number, null rows complete, unrelated kinds unmatched), ordering siblings agree, null truth table constants, wrappers return the Python operation of their symbol, the number x number and str x str overloads and =/!= ARE the plain Python operation, int division uses // and %. Python\'s own int/float/str semantics are the trusted base for the algebraic laws.',
+  text='Type-level: which scalar kinds each operator overload admits (bool never as a number, null rows complete, unrelated kinds unmatched), ordering siblings agree, null truth table constants, wrappers return the Python operation of their symbol, the number x number and str x str overloads and =/!= ARE the plain Python operation, null is no arithmetic operand, check() overrides on scalar operand types only narrow the inherited check, int division uses // and %. Python\'s own int/float/str semantics are the trusted base for the algebraic laws.',
   note=TRUST + 'Python integer/float/str semantics.',
   ref='6/C15'),
  'C16': dict(
   tech='regular-language checks on the lexer\'s token/escape regexes + def-use in token actions',
-  text='Lexer-level necessary clauses: escapes are decoded per matched escape, the escape alternatives cover the documented set without shadowing, quoted-token regexes denote Q([^Q\\\\]|\\\\.)*Q, keyword guard and keyword table, number conversion choice, constant nodes carry the token value. The round trip for every string is not decided.',
+  text='Lexer-level necessary clauses: escapes are decoded per matched escape, the escape alternatives cover the documented set without shadowing, quoted-token regexes denote Q([^Q\\\\]|\\\\.)*Q, keyword guard and keyword table, context-free word classification, number conversion choice (decided by abstract evaluation of the token actions), constant nodes carry the token value, the lexer sees the caller's text. The round trip for every string is not decided.',
   note=TRUST + 're._parser syntax trees of the token regexes.',
   ref='6/C16'),
  'C17': dict(
   tech='interface-discipline checks across the three context classes (normalisation, own-layer, ask_parent gating, exclusivity, merge)',
-  text='Necessary clauses: every _data access uses a normalised key; membership/keys never reach the parent; parent use is gated by ask_parent; collect_functions stops at exclusive layers; writes go to the own layer; MultiContext merges all members. Equivalence with a flattened model over histories is not decided.',
+  text='Necessary clauses: every _data access uses a normalised key; membership/keys never reach the parent; parent use is gated by ask_parent; collect_functions stops at exclusive layers; writes go to the own layer (a multi-context always writes its first member); lookups are pure; MultiContext merges all members. Equivalence with a flattened model over histories is not decided.',
   note=TRUST + 'necessary clauses.',
   ref='6/C17'),
  'C18': dict(
   tech='effect analysis: per-call taint into shared objects / globals / class attributes over all evaluation-time code',
-  text='Sufficient condition: no per-call information is stored in a location that outlives the call (expression nodes, definitions, smart types, engine, shared contexts, module globals, class attributes, mutable defaults); stateful lazy helper classes are instantiated only inside payload bodies.',
+  text='Sufficient condition: no per-call information is stored in a location that outlives the call (expression nodes, definitions, smart types, engine, shared contexts, module globals, class attributes, mutable defaults); stateful lazy helper classes are instantiated only inside payload bodies; no in-place write on argument data (shared with C09).',
   note=TRUST + 'CPython makes individual attribute/dict reads atomic.',
   ref='6/C18'),
  'C19': dict(
   tech='API-conformance lints: stdlib attribute resolution, re.Match API kinds, sibling-body symmetry',
-  text='Necessary API-conformance clauses: every stdlib attribute referenced exists; match-object API is used with indices/names (not values) and iteration arity matches; sibling functions differ only in their documented direction/polarity; getattr on a library module with names from a constant table resolves for every name. Agreement with a reference model is not decided.',
+  text='Necessary API-conformance clauses: every stdlib attribute referenced exists; match-object API is used with indices/names (not values) and iteration arity matches; sibling functions differ only in their documented direction/polarity; getattr on a library module with names from a constant table resolves for every name; findall is not applied to caller-supplied patterns. Agreement with a reference model is not decided.',
   note=TRUST + 'the interpreter\'s stdlib modules are inspected for attribute existence only.',
   ref='6/C19'),
  'C20': dict(
   tech='abstract interpretation of date_time.py over an (instant, offset-tag, awareness) domain + unit-constant evaluation',
-  text='Decides the instant/offset algebra of utc / timestamp / offset / datetime(timestamp, offset), naive-safety of bare-typed parameters, and the unit constants of the timespan properties. Float rounding is not decided.',
+  text='Decides the instant/offset algebra of utc / timestamp / offset / datetime(timestamp, offset), naive-safety of bare-typed parameters, fixed-offset zones built from the total offset, and the unit constants of the timespan properties. Float rounding is not decided.',
   note=TRUST + 'datetime/dateutil semantics of astimezone, replace, utcoffset, fromtimestamp.',
   ref='6/C20'),
 }
@@ -163,11 +163,11 @@ def main():
             'name': 'sa',
             'path': '/verif/sa',
             'serves_properties': built,
-            'kind_free_text': 'repository-specific static analysers on the Python ast: source model, declared function registry, statement CFG/dataflow, origin/effect analysis, LALR-table queries, regular-language engine, small abstract interpreters',
+            'kind_free_text': 'repository-specific static analysers on the Python ast: source model, declared function registry, statement CFG/dataflow, spelling-independent path conditions, origin/effect analysis, LALR-table queries, regular-language engine, small abstract interpreters (shapes, tz, decision procedures with oracles)',
         }],
         'checks': checks,
         'not_applicable': na,
-        'notes': 'Technique family: static analysis only. Every check decides from /repo working-tree source at run time; exit 0 held / 1 VIOLATION / 2 ANALYSIS-ERROR. Known findings: /verif/known_findings.json. Self-test of the checkers: /verif/selftest (not a check).',
+        'notes': 'Technique family: static analysis only. Every check decides from /repo working-tree source at run time; exit 0 held / 1 VIOLATION / 2 ANALYSIS-ERROR. Known findings: /verif/known_findings.json. Self-test of the checkers: /verif/selftest; corpora written by independent sub-agents: /verif/seeded (100 breaking changes, tools/seedcheck.py) and /verif/refactors (60 behaviour-preserving refactorings, tools/refcheck.py) -- none of these is a check.',
     }
     with open(os.path.join(HERE, 'MANIFEST.json'), 'w') as f:
         json.dump(manifest, f, indent=1)
